@@ -14,7 +14,7 @@ PROP = dict(
                        "array_reserve": 5000, "state:shared": 20000, "monitor:init-failures-injected": 2000,
                        "monitor:fini-calls": 100000, "monitor:conservation-checks": 100000,
                        "monitor:metaref-checks": 10000, "monitor:arrarr-checks": 10000}),
-          dict(name="c05_cxx", src=["c05_cxx.cpp"], libs=["mpt++", "mptio", "mptplot", "mptcore"], batch=512, lsan=True,
+          dict(name="c05_cxx", memcheck=500, src=["c05_cxx.cpp"], libs=["mpt++", "mptio", "mptplot", "mptcore"], batch=512, lsan=True,
                floors={"typed_array_insert": 5000, "typed_array_resize": 5000, "typed_array_trim": 3000, "typed_array_skip": 3000,
                        "unique_array_insert": 2000, "refarray_insert": 5000, "monitor:refarray-checks": 50000,
                        "monitor:destructor-calls": 50000, "state:shared": 5000})],
